@@ -616,7 +616,11 @@ func (interp *Interpreter) EvalWithContext(ctx context.Context, src string) (ref
 // invocation of EvalWithContext.
 func (interp *Interpreter) stop() {
 	atomic.AddUint64(&interp.id, 1)
+	interp.mutex.Lock()
 	close(interp.done)
+	// The channel operations of the next evaluations are not cancelled.
+	interp.done = make(chan struct{})
+	interp.mutex.Unlock()
 }
 
 func (interp *Interpreter) runid() uint64 { return atomic.LoadUint64(&interp.id) }
